@@ -123,6 +123,37 @@ pub fn exercise_archive(ctx: &mut Ctx, bytes: &[u8], label: &str, class: &str) {
             );
         }
     }
+    // --- the same bytes behind a prefix, the reader positioned at the archive's first byte (a library may resolve the
+    // header's offsets against the stream start or against that position: both interpretations must stay in budget)
+    if hash_bytes(bytes) % 4 == 1 && bytes.len() >= 127 {
+        let p = 300usize;
+        let mut v = vec![0x33u8; p];
+        v.extend_from_slice(bytes);
+        let mut w = v.clone();
+        w[..127].copy_from_slice(&bytes[..127]);
+        let est2 = estimate(&w);
+        if !est2.capped {
+            let mut rd = Inst::new(v);
+            rd.c.pos = p as u64;
+            rd.c.op_budget = Some(op_budget(bytes.len() + p) + 64 * (est.plain_bytes + est2.plain_bytes));
+            let r = guard(|| {
+                PMTiles::from_reader(&mut rd).map(|mut pm| {
+                    let ids: Vec<u64> = pm.tile_ids().into_iter().take(2).copied().collect();
+                    for id in ids {
+                        let _ = pm.get_tile_by_id(id);
+                    }
+                    pm.num_tiles()
+                })
+            });
+            match r {
+                Ok(_) => ctx.count("open_behind_prefix.returned"),
+                Err(pn) => ctx.panic("PMTiles::from_reader", &pn, m()),
+            }
+            if rd.c.budget_exceeded {
+                ctx.violation("PMTiles::from_reader", "unbounded-work", "stream operation budget exceeded while opening (reader positioned behind a prefix)", "open exceeded the logical operation budget", m());
+            }
+        }
+    }
     // --- partial opens
     let rsel = hash_bytes(bytes) % 4;
     let r = guard(|| match rsel {
@@ -435,6 +466,24 @@ pub fn crafted(rng: &mut Rng, codecs: &[u8], small_only: bool) -> Vec<(String, S
             let mut a = base_archive(codec, dir_with(1, &[1], &[1], &[5], &[1]));
             a.meta_plain = meta;
             add("metadata", format!("{cn}: {name}"), &a, rng);
+        }
+        // tiny metadata: every single byte, and every two-byte string that starts a multi-byte UTF-8 sequence, a BOM,
+        // or a JSON token
+        if (codec == R::C_NONE || codec == R::C_ZSTD) && !small_only {
+            for b in 0..=255u8 {
+                let mut a = base_archive(codec, dir_with(1, &[1], &[1], &[5], &[1]));
+                a.meta_plain = vec![b];
+                add("tiny-metadata", format!("{cn}: metadata is the single byte {b:#04x}"), &a, rng);
+            }
+            {
+                for first in [0xEFu8, 0xC3, 0xE2, 0xF0, 0xFE, 0xFF, b'{', b'"', b'['] {
+                    for second in 0..=255u8 {
+                        let mut a = base_archive(codec, dir_with(1, &[1], &[1], &[5], &[1]));
+                        a.meta_plain = vec![first, second];
+                        add("tiny-metadata", format!("{cn}: metadata is the two bytes {first:#04x} {second:#04x}"), &a, rng);
+                    }
+                }
+            }
         }
         // wrong codec for a stream / garbage streams
         for other in R::CODECS {
